@@ -120,15 +120,16 @@ import numpy as _np
 BASE = dict(np=_np, math=_math, __eq__=_eq, at=_at, key_at=_key_at, pos_of=_pos_of, mat_at=_mat_at, re=lambda z: complex(z).real if z is not UNDEF else UNDEF,
             im=lambda z: complex(z).imag if z is not UNDEF else UNDEF, cplx=lambda a, b: complex(a, b), cnt=_cnt, lsum=_lsum,
             same_ref=lambda a, b: a is b, same_value=lambda a, b: _eq(a, b) if not (a is None or b is None) else (a is None and b is None),
-            numeric=_numeric, is_none=lambda x: x is None, real=lambda x: float(x), lam=_skip, app=_skip, suffix=_skip, pre=_skip,
+            numeric=_numeric, is_none=lambda x: x is None, real=lambda x: float(x), lam=_skip, app=_skip, suffix=_skip, pre=_skip, __suffix__=lambda now, before: list(now)[len(before):],
             len=lambda x: len(_seq(x)), abs=abs, min=min, max=max, sum=sum, sorted=sorted, all=all, any=any, range=range, isinstance=isinstance,
             int=int, float=float, bool=bool, list=list, dict=dict, tuple=tuple, set=set, True_=True, False_=False)
 
 
 # --------------------------------------------------------------------------------------------- spec compilation
 class _Tx(ast.NodeTransformer):
-    def __init__(self, cls, argnames, defs, tolerant=True):
+    def __init__(self, cls, argnames, defs, tolerant=True, rt_defs=None):
         self.cls, self.argnames, self.defs, self.tolerant = cls, argnames, defs, tolerant
+        self.rt_defs = rt_defs or {}        # run-time counterparts (plain python callables) of contract-defined spec functions
 
     def visit_Attribute(self, node):
         self.generic_visit(node)
@@ -167,17 +168,26 @@ class _Tx(ast.NodeTransformer):
             return ast.Call(lam, [ast.Subscript(ast.Name("__pre__", ast.Load()), ast.Constant(a), ast.Load()) for a in self.argnames], [])
         if name == "fresh_ref":
             return ast.Call(ast.Name("__fresh__", ast.Load()), [self.visit(node.args[0])], [])
+        if name == "suffix":
+            # the elements appended to a list since the pre-state: E[len(old(E)):]
+            now = self.visit(copy.deepcopy(node.args[0]))
+            before = self.visit(ast.Call(ast.Name("old", ast.Load()), [copy.deepcopy(node.args[0])], []))
+            return ast.Call(ast.Name("__suffix__", ast.Load()), [now, before], [])
         if name in self.defs:
+            if name in self.rt_defs:
+                self.generic_visit(node)
+                node.func = ast.Name(f"__rt_{name}", ast.Load())
+                return node
             raise Skip(f"contract-defined function {name}")
         self.generic_visit(node)
         return node
 
 
-def compile_spec(src, cls, argnames, defs, tolerant=True):
+def compile_spec(src, cls, argnames, defs, tolerant=True, rt_defs=None):
     """tolerant: numeric equalities in postconditions are compared to 1e-9 (results of float arithmetic); preconditions and `raises`
     conditions are evaluated exactly (they decide what the code under test decides with exact comparisons)"""
     tree = ast.parse(src.strip(), mode="eval")
-    tree = _Tx(cls, argnames, defs, tolerant).visit(tree)
+    tree = _Tx(cls, argnames, defs, tolerant, rt_defs).visit(tree)
     ast.fix_missing_locations(tree)
     return compile(tree, "<spec>", "eval")
 
@@ -279,7 +289,9 @@ def values(t, rnd):
                     if fn_.startswith("__") and not fn_.endswith("__"):
                         fn_ = f"_{head.lstrip('_')}{fn_}"
                     fields.append((fn_, values(ft.strip(), rnd)))
-        combos = list(itertools.islice(itertools.product(*[v for _, v in fields]), 400))
+        # field values drawn independently per object (the first N of the cartesian product would keep the leading fields at their first pool value)
+        combos = list(itertools.islice(itertools.product(*[v for _, v in fields]), 60))
+        combos += [tuple(rnd.choice(v) for _, v in fields) for _ in range(340)] if all(v for _, v in fields) else []
         rnd.shuffle(combos)
         out = []
         for combo in combos[:24]:
@@ -483,8 +495,18 @@ def check_contract(c, limit=400, seed=0, max_fail=1):
         return dict(res, status="unavailable", reason=f"ghost inputs {extra}")
     spec_args = list(dict.fromkeys(argnames + ["result"]))
 
+    rt_defs = getattr(c, "rt_defs", None) or {}
+    extras = {f"__rt_{k}": v for k, v in rt_defs.items()}
+
     def comp(src, tolerant=True):
-        return compile_spec(src, clsname, spec_args, c.defs or {}, tolerant)
+        # names of repository classes used in the clause (isinstance(x, Parameter) ...) are bound to the real classes
+        for n_ in ast.walk(ast.parse(src.strip(), mode="eval")):
+            if isinstance(n_, ast.Name) and n_.id not in BASE and n_.id not in spec_args and n_.id not in extras and n_.id[:1].isupper():
+                try:
+                    extras[n_.id] = find_class(n_.id)
+                except Exception:  # noqa: BLE001
+                    pass
+        return compile_spec(src, clsname, spec_args, c.defs or {}, tolerant, rt_defs)
     try:
         requires = [comp(r, False) for r in c.requires]
     except (Skip, SyntaxError) as e:
@@ -518,6 +540,7 @@ def check_contract(c, limit=400, seed=0, max_fail=1):
 
     def ns(args, pre, result=None, fresh_base=()):
         d = dict(BASE)
+        d.update(extras)
         d.update(args)
         d["result"] = result
         d["__pre__"] = dict(pre, result=result)
